@@ -225,7 +225,7 @@ Section Search.
     exists c0 rest means, cands = c0 :: rest /\
       all_ok (map (cand_mean_ sp st) cands) = Ok means /\
       s = let '(rk, bi) := select (ascending_expr (PyBool gib)) means in
-          mksearch means rk bi (nth (Z.to_nat bi) means 0%Q) (nth (Z.to_nat bi) cands c0).
+          mksearch means rk bi (nth (Z.to_nat bi) means 0%Q) (nth (Z.to_nat bi) cands c0) cands.
   Proof.
     unfold tune. destruct cands as [|c0 rest]; [discriminate|].
     destruct (all_ok (map (cand_mean_ sp st) (c0 :: rest))) as [means|] eqn:E; [|discriminate].
@@ -438,6 +438,53 @@ Section Search.
       - intros q Hq. apply Hin. right. exact Hq.
       - intros q Hq. apply Hov; [apply Hin; left; reflexivity|apply Hin; right; exact Hq]. }
     apply G; [intros p Hp; exact Hp|intros; reflexivity].
+  Qed.
+  (* ---- rows and params are aligned; the candidates are drawn once ---------------------------- *)
+
+  (* row i of cv_results_ pairs the i-th candidate with the i-th mean: the params column IS the list
+     that was evaluated, and best_params_ is its row best_index_ *)
+  Theorem rows_pair_params_with_means sp st cands s : tune_ sp st cands = Ok s ->
+    s_params s = cands /\
+    Forall2 (fun p m => fc_mean_ sp st (apply_params base p) = Ok m) (s_params s) (s_means s) /\
+    exists c0, s_best s = nth (Z.to_nat (s_best_index s)) (s_params s) c0.
+  Proof.
+    intro H. destruct (tune_inv sp st cands s H) as (c0 & rest & means & Hc & Hall & Hs).
+    pose proof (all_ok_Forall2 _ _ _ Hall) as HF.
+    destruct (select (ascending_expr (PyBool gib)) means) as [rk bi]. subst s.
+    cbn [s_params s_means s_best s_best_index]. split; [reflexivity|]. split; [exact HF|].
+    exists c0. reflexivity.
+  Qed.
+
+  Variable G : Type.
+  Variable draw : G -> list P * G.
+  Notation from_ := (search_from XV tm yv xv metric gib ascending_expr F P apply_params respond
+                                 cutoff_after base G draw).
+  Notation two_pass_ := (search_two_pass XV tm yv xv metric gib ascending_expr F P apply_params
+                                         respond cutoff_after base G draw).
+
+  (* the search iterates the candidate source exactly once: the generator advances by one pass, and
+     the list of that pass is both evaluated and reported *)
+  Theorem search_draws_once g sp st s g' : from_ g sp st = (Ok s, g') ->
+    draw g = (s_params s, g') /\ tune_ sp st (s_params s) = Ok s.
+  Proof.
+    unfold search_from. destruct (draw g) as [cands g1] eqn:E. intro H. injection H as H <-.
+    destruct (rows_pair_params_with_means sp st cands s H) as (Hp & _). rewrite Hp. split; [reflexivity|exact H].
+  Qed.
+
+  (* why a second pass goes unnoticed with a grid or an integer seed: when a second pass yields the
+     same list, the two-pass variant is the search *)
+  Theorem two_pass_harmless_when_reiterable g sp st :
+    (forall g1, fst (draw g1) = fst (draw g)) ->
+    two_pass_ g sp st = fst (from_ g sp st).
+  Proof.
+    intro Hre. unfold search_two_pass, search_from.
+    destruct (draw g) as [cands g1] eqn:E. pose proof (Hre g1) as H1. try rewrite E in H1. cbn [fst] in H1.
+    destruct (draw g1) as [cands2 g2]. cbn [fst] in *. subst cands2.
+    destruct (tune_ sp st cands) as [s|] eqn:Et; [|reflexivity].
+    destruct (tune_inv sp st cands s Et) as (c0 & rest & means & Hc & Hall & Hs).
+    subst cands. cbn [fst]. f_equal.
+    destruct (select (ascending_expr (PyBool gib)) means) as [rk bi]. subst s.
+    cbn [s_means s_ranks s_best_index s_best_score]. reflexivity.
   Qed.
 End Search.
 
